@@ -276,7 +276,8 @@ FLit(s)       == [lit |-> s]
 FExp(e)       == [e |-> e]
 Block(ids, a) == [k |-> "block", ids |-> ids, a |-> a]
 LetF(f, a)    == [k |-> "letf", w |-> f, a |-> a]                  \* let F := {a};
-BApply(a)     == [k |-> "bapply", a |-> a]                         \* {a} apply
+BApplyB(ids, a) == [k |-> "bapply", ids |-> ids, a |-> a]          \* {|ids| a} apply
+BApply(a)     == BApplyB(<<>>, a)                                  \* {a} apply
 
 InfixWord(op) ==
     CASE op = "==" -> "?eq" [] op = "!=" -> "?ne" [] op = "<" -> "?lt"
@@ -323,7 +324,7 @@ Bind(p, cur, vis) ==
             IF IsErr(NewScope(p.a, vis)) THEN BERR
             ELSE IF p.w \in cur THEN BERR
             ELSE [cur |-> cur \cup {p.w}, vis |-> vis \cup {p.w}]
-      [] p.k = "bapply" -> IF IsErr(NewScope(p.a, vis)) THEN BERR ELSE same
+      [] p.k = "bapply" -> IF IsErr(ScopeWith(p.ids, p.a, vis)) THEN BERR ELSE same
       [] p.k = "if" ->
             IF IsErr(NewScope(p.c, vis)) \/ IsErr(NewScope(p.a, vis))
                \/ IsErr(NewScope(p.b, vis)) THEN BERR ELSE same
@@ -410,7 +411,7 @@ Eff(p) ==
             \* blocks bound to names are thunks in this fragment: (0, +1)
             LET x == Eff(p.a) IN
             IF IsBad(x) THEN BAD ELSE IF x.need # 0 \/ x.delta # 1 THEN BAD ELSE Eff1(0, 0)
-      [] p.k = "bapply" -> Eff(p.a)
+      [] p.k = "bapply" -> SeqEff(Eff1(Len(p.ids), -Len(p.ids)), Eff(p.a))
 \* splices are resolved right to left, each popping the TOS its body leaves
 EffParts(parts, j, acc) ==
     IF IsBad(acc) THEN BAD
@@ -580,7 +581,10 @@ Den(p, env, stk) ==
             ResOf(<<R1(Push(stk, CloV(Scope(p.ids, p.a), env)), env)>>)
       [] p.k = "letf" ->
             ResOf(<<R1(stk, EnvPut(env, p.w, CloV(Scope(<<>>, p.a), env)))>>)
-      [] p.k = "bapply" -> SetEnv(Den(p.a, env, stk), env)
+      [] p.k = "bapply" ->
+            \* the block takes its arguments from the stack that apply finds under it
+            IF Depth(stk) < Len(p.ids) THEN [ResOf(<<>>) EXCEPT !.hard = TRUE]
+            ELSE LET b == BindIds(p.ids, stk, env) IN SetEnv(Den(p.a, b.e, b.s), env)
 
 \* Format strings.  `cur` is a sequence of partial results [s: stack, str:
 \* text to the right].  Parts are processed right to left.
